@@ -27,6 +27,8 @@ func main() {
 		out      = flag.String("out", "", "result file")
 		journal  = flag.String("journal", "", "journal file (current case, written before it runs)")
 		only     = flag.String("only", "", "section:index — run a single case")
+		section  = flag.String("section", "", "run only this section")
+		known    = flag.String("known", "", "file with known-finding keys, one per line (they do not count against the violation cap)")
 		maxStack = flag.Int("maxstack", 64<<20, "debug.SetMaxStack")
 		heapMax  = flag.Int64("heapmax", 6<<30, "abort if HeapAlloc exceeds this")
 	)
@@ -48,6 +50,19 @@ func main() {
 			os.Exit(3)
 		}
 		ctx.Journal = jf
+	}
+	if *section != "" {
+		ctx.OnlySec = *section
+	}
+	if *known != "" {
+		ctx.Known = map[string]bool{}
+		if data, err := os.ReadFile(*known); err == nil {
+			for _, l := range strings.Split(string(data), "\n") {
+				if l = strings.TrimSpace(l); l != "" {
+					ctx.Known[l] = true
+				}
+			}
+		}
 	}
 	if *only != "" {
 		k := strings.LastIndex(*only, ":")
